@@ -16,28 +16,30 @@ pub enum Stat {
     Max,
 }
 
-/// bigWig: the stored value at base p (`vals[..n]` = (start, end, value), pairwise disjoint)
+pub const MAXW: i64 = 8;
+
+/// bigWig: the stored value at base p (`vals[..n]` = (start, end, value), pairwise disjoint).
+/// (Loop-free on purpose: MAXN = 3 layout slots, so that the harness unwinding bound is set by the code's loops only.)
 pub fn bw_at(vals: &[(u32, u32, f32); MAXN], n: usize, p: i64) -> Option<f64> {
-    let mut k = 0;
-    while k < n {
-        if (vals[k].0 as i64) <= p && p < (vals[k].1 as i64) {
-            return Some(vals[k].2 as f64);
-        }
-        k += 1;
+    if n > 0 && (vals[0].0 as i64) <= p && p < (vals[0].1 as i64) {
+        return Some(vals[0].2 as f64);
+    }
+    if n > 1 && (vals[1].0 as i64) <= p && p < (vals[1].1 as i64) {
+        return Some(vals[1].2 as f64);
+    }
+    if n > 2 && (vals[2].0 as i64) <= p && p < (vals[2].1 as i64) {
+        return Some(vals[2].2 as f64);
     }
     None
 }
 
+fn covers(e: (u32, u32), p: i64) -> u32 {
+    if (e.0 as i64) <= p && p < (e.1 as i64) { 1 } else { 0 }
+}
+
 /// bigBed: the value at base p = number of entries covering it; "no data" when that number is 0
 pub fn bb_at(ents: &[(u32, u32); MAXN], n: usize, p: i64) -> Option<f64> {
-    let mut c = 0u32;
-    let mut k = 0;
-    while k < n {
-        if (ents[k].0 as i64) <= p && p < (ents[k].1 as i64) {
-            c += 1;
-        }
-        k += 1;
-    }
+    let c = (if n > 0 { covers(ents[0], p) } else { 0 }) + (if n > 1 { covers(ents[1], p) } else { 0 }) + (if n > 2 { covers(ents[2], p) } else { 0 });
     if c == 0 {
         None
     } else {
@@ -52,29 +54,48 @@ pub fn bin_span(start: i32, end: i32, bins: usize, b: usize) -> (i64, i64) {
     (lo, lo + w)
 }
 
-/// Fold of the statistic over the covered bases of [lo, hi): None when no base is covered.
-/// `at(p)` is the per-base value (None = no data); bases outside [0, length) carry no data.
-pub fn fold_span(stat: Stat, lo: i64, hi: i64, length: i64, at: &dyn Fn(i64) -> Option<f64>) -> Option<f64> {
-    let mut acc: Option<f64> = None;
-    let mut cnt: u32 = 0;
-    let mut p = lo;
-    while p < hi {
-        if p >= 0 && p < length {
-            if let Some(x) = at(p) {
-                cnt += 1;
-                acc = Some(match (stat, acc) {
-                    (_, None) => x,
-                    (Stat::Mean, Some(a)) => a + x,
-                    (Stat::Min, Some(a)) => if x < a { x } else { a },
-                    (Stat::Max, Some(a)) => if x > a { x } else { a },
-                });
+#[derive(Clone, Copy)]
+pub struct Acc {
+    pub cnt: u32,
+    pub acc: f64,
+}
+
+fn step(stat: Stat, a: Acc, p: i64, hi: i64, length: i64, x: Option<f64>) -> Acc {
+    if p < hi && p >= 0 && p < length {
+        if let Some(x) = x {
+            if a.cnt == 0 {
+                return Acc { cnt: 1, acc: x };
             }
+            let v = match stat {
+                Stat::Mean => a.acc + x,
+                Stat::Min => if x < a.acc { x } else { a.acc },
+                Stat::Max => if x > a.acc { x } else { a.acc },
+            };
+            return Acc { cnt: a.cnt + 1, acc: v };
         }
-        p += 1;
     }
-    match (stat, acc) {
-        (Stat::Mean, Some(a)) => Some(a / cnt as f64),
-        (_, a) => a,
+    a
+}
+
+/// Fold of the statistic over the covered bases of [lo, hi), hi - lo <= MAXW: None when no base is covered.
+/// `at(p)` is the per-base value (None = no data); bases outside [0, length) carry no data.  Loop-free (unrolled).
+pub fn fold_span(stat: Stat, lo: i64, hi: i64, length: i64, at: &dyn Fn(i64) -> Option<f64>) -> Option<f64> {
+    assert!(hi - lo <= MAXW);
+    let mut a = Acc { cnt: 0, acc: 0.0 };
+    a = step(stat, a, lo, hi, length, at(lo));
+    a = step(stat, a, lo + 1, hi, length, at(lo + 1));
+    a = step(stat, a, lo + 2, hi, length, at(lo + 2));
+    a = step(stat, a, lo + 3, hi, length, at(lo + 3));
+    a = step(stat, a, lo + 4, hi, length, at(lo + 4));
+    a = step(stat, a, lo + 5, hi, length, at(lo + 5));
+    a = step(stat, a, lo + 6, hi, length, at(lo + 6));
+    a = step(stat, a, lo + 7, hi, length, at(lo + 7));
+    if a.cnt == 0 {
+        return None;
+    }
+    match stat {
+        Stat::Mean => Some(a.acc / a.cnt as f64),
+        _ => Some(a.acc),
     }
 }
 
@@ -90,22 +111,20 @@ pub fn close(a: f64, b: f64) -> bool {
     d <= 1e-9 * m
 }
 
+fn bw_slot_ok(v: (u32, u32, f32), prev_end: i64, qe: i64) -> bool {
+    prev_end <= v.0 as i64 && (v.0 as i64) < (v.1 as i64) && (v.1 as i64) <= qe
+}
+
 /// What the reader hands to the bigWig fillers for request [start, end) on a chromosome of `length`:
 /// values sorted, non-empty, pairwise disjoint, clipped to [max(start,0), min(end,length)).
 pub fn bw_layout_ok(vals: &[(u32, u32, f32); MAXN], n: usize, start: i32, end: i32, length: i32) -> bool {
     let qs = if start > 0 { start as i64 } else { 0 };
     let qe = if end < length { end as i64 } else { length as i64 };
-    let mut prev_end = qs;
-    let mut k = 0;
-    while k < n {
-        let (s, e) = (vals[k].0 as i64, vals[k].1 as i64);
-        if !(prev_end <= s && s < e && e <= qe) {
-            return false;
-        }
-        prev_end = e;
-        k += 1;
-    }
-    true
+    (n <= 0 || bw_slot_ok(vals[0], qs, qe)) && (n <= 1 || bw_slot_ok(vals[1], vals[0].1 as i64, qe)) && (n <= 2 || bw_slot_ok(vals[2], vals[1].1 as i64, qe))
+}
+
+fn bb_slot_ok(e: (u32, u32), prev_start: i64, qs: i64, qe: i64, length: i64) -> bool {
+    prev_start <= e.0 as i64 && (e.0 as i64) < (e.1 as i64) && (e.1 as i64) <= length && (e.1 as i64) >= qs && (e.0 as i64) <= qe
 }
 
 /// What the reader hands to the bigBed fillers: entries inside the chromosome, non-empty, sorted by start,
@@ -113,15 +132,6 @@ pub fn bw_layout_ok(vals: &[(u32, u32, f32); MAXN], n: usize, start: i32, end: i
 pub fn bb_layout_ok(ents: &[(u32, u32); MAXN], n: usize, start: i32, end: i32, length: i32) -> bool {
     let qs = if start > 0 { start as i64 } else { 0 };
     let qe = if end < length { end as i64 } else { length as i64 };
-    let mut prev_start = 0i64;
-    let mut k = 0;
-    while k < n {
-        let (s, e) = (ents[k].0 as i64, ents[k].1 as i64);
-        if !(prev_start <= s && s < e && e <= length as i64 && e >= qs && s <= qe) {
-            return false;
-        }
-        prev_start = s;
-        k += 1;
-    }
-    true
+    let l = length as i64;
+    (n <= 0 || bb_slot_ok(ents[0], 0, qs, qe, l)) && (n <= 1 || bb_slot_ok(ents[1], ents[0].0 as i64, qs, qe, l)) && (n <= 2 || bb_slot_ok(ents[2], ents[1].0 as i64, qs, qe, l))
 }
